@@ -81,7 +81,7 @@ def specs(draw):
     cls = draw(st.sampled_from(CLASSES[dim]))
     modes = draw(st.integers(1, 8))
     hetero = draw(st.integers(0, 5)) == 0
-    spec = {"kind": kind, "dim": dim, "cls": cls, "hetero": hetero}
+    spec = {"kind": kind, "dim": dim, "cls": cls, "hetero": hetero, "build": draw(st.sampled_from(["ctor", "ctor", "append"]))}
     if kind == "Emulsion":
         spec["members"] = [draw(member(dim, cls, modes, hetero))]
     elif kind == "DropletTrack":
@@ -100,9 +100,11 @@ def specs(draw):
     return spec
 
 
-def _track(drops, times):
+def _track(drops, times, build="append"):
     from droplets import DropletTrack
 
+    if build == "ctor":  # documented constructor: droplets and times given as lists
+        return DropletTrack(droplets=[T.build_droplet(d) for d in drops], times=list(times))
     tr = DropletTrack()
     for d, t in zip(drops, times):
         tr.append(T.build_droplet(d), time=t)
@@ -166,9 +168,9 @@ class C08(Property):
             elif kind == "EmulsionTimeCourse":
                 obj = EmulsionTimeCourse([Emulsion([T.build_droplet(d) for d in m]) for m in members], spec["times"]) if members else EmulsionTimeCourse()
             elif kind == "DropletTrack":
-                obj = _track(members[0], spec["times"][0])
+                obj = _track(members[0], spec["times"][0], spec.get("build", "append"))
             else:
-                obj = DropletTrackList([_track(m, t) for m, t in zip(members, spec["times"])])
+                obj = DropletTrackList([_track(m, t, spec.get("build", "append")) for m, t in zip(members, spec["times"])])
         except ValueError:
             # e.g. DropletTrack.append refuses a droplet of another dimension: nothing to write
             ctx.cls(kind, "construction-refused")
